@@ -415,7 +415,14 @@ func (fr *Frame) execInstr(in ssa.Instruction) bool {
 						vl := v.F[2].leaves()
 						for i, srt := range leafSorts(mt.Elem()) {
 							arr := e.heapGet(fr.st, fmt.Sprintf("M:%s.val#%d", typeKey(MT), i), arrSort(sRef, arrSort(ks, srt)))
-							if i < len(vl) {
+							// "for k := range m": go/ssa gives the unused value component an invalid type; it has no value to relate
+							valUsed := true
+							if tt, okT := x.Type().(*types.Tuple); okT && tt.Len() == 3 {
+								if bt, okB := tt.At(2).Type().(*types.Basic); okB && bt.Kind() == types.Invalid {
+									valUsed = false
+								}
+							}
+							if i < len(vl) && valUsed {
 								eqs = append(eqs, mkEq(vl[i], sel(sel(arr, m.S), kterm[0])))
 							}
 						}
@@ -1201,6 +1208,10 @@ func (fr *Frame) execMapUpdate(x *ssa.MapUpdate) {
 	m := MT.Underlying().(*types.Map)
 	if e.enabled("mapnil") && !c.NN {
 		e.oblige("mapnil", fr.anchor(x), fr.pc, mkNot(mkEq(c.S, "0")), e.posOf(x.Pos()), "assignment to entry in nil map")
+	} else {
+		// not obliged here (kind disabled, or the map is non-nil by assumption A2): a write to a nil map panics, so
+		// execution continues only with a map — made explicit for the clauses that mention haskey
+		e.assume(mkImp(fr.pc, mkNot(mkEq(c.S, "0"))))
 	}
 	ks, ok := e.mapSorts(MT)
 	if !ok {
